@@ -16,7 +16,7 @@ Lemma exec_governance_frame is_name cfg bno s t sd rc s' sd' rc' :
   exec_governance is_name cfg bno s t sd rc = Some (s', sd', rc') ->
   bp_reward s' = bp_reward s /\ receipts s' = receipts s.
 Proof.
-  unfold exec_governance, exec_stake, exec_unstake, exec_name, name_commit. intros H.
+  unfold exec_governance, exec_stake, exec_unstake, exec_vote, exec_name, name_commit. intros H.
   crush_frame H; inversion H; subst; auto.
 Qed.
 
